@@ -295,7 +295,7 @@ func TestC32(t *testing.T) {
 	for _, p := range AllParrots {
 		srcs = append(srcs, src{p.Name, p.ID})
 	}
-	nrand := mon.Pick(1000, 60000)
+	nrand := mon.Pick(1000, 400000)
 	for i := 0; i < nrand; i++ {
 		rg := Sub("C32rand", i)
 		var seed tls.PRNGSeed
@@ -395,7 +395,7 @@ func TestC32(t *testing.T) {
 				add(raw)
 			}
 		}
-		for i := 0; i < mon.Pick(200, 5000); i++ {
+		for i := 0; i < mon.Pick(200, 30000); i++ {
 			rg := Sub("C32harvest", i)
 			msg, _ := ForeignHello(rg, "example.test")
 			add(msg)
